@@ -75,6 +75,29 @@ def family_dist(tier, seed, n=None):
     return out
 
 
+def family_dist_foreach(tier, seed):
+    """dist inside foreach with weights that depend on the index: an entry whose weight is zero FOR THAT ELEMENT is never
+    produced there (tables + full support per element)"""
+    out = []
+    for t in range(3 if tier == "quick" else 12):
+        rnd = random.Random(1530 + t + (0 if t < 2 else 100 * seed))
+        n = 2 + t % 2
+        fields = [fld("a", 2, False), {"name": "l", "kind": "list", "w": 2, "signed": False, "rand": True, "init": [0] * n, "cap": 4}]
+        ix = {"k": "ix", "v": "i"}
+        ws = [W(V(1), ix), W(V(2), B("sub", lit(n - 1), ix)), W(V(3), 1 if t % 2 else ix)]
+        if t % 3 == 2:
+            ws.append(W(R(0, 0), lit(1)))
+        body = [{"k": "foreach", "l": "l", "v": "i", "it": False, "idx": True,
+                 "body": [{"k": "dist", "e": {"k": "sub", "l": "l", "i": ix, "p": ""}, "ws": ws}]}]
+        world = one(fields, [blk("c1", body)])
+        paths = ["o1.a"] + ["o1.l[%d]" % i for i in range(n)]
+        ops = [{"op": "construct", "o": "o1"}, {"op": "call", "call": mcall()}, {"op": "call", "call": mcall()},
+               {"op": "probe", "call": wcall(), "paths": paths},
+               {"op": "explore", "call": mcall(), "paths": paths, "max_paths": 6000 if tier == "quick" else 60000}]
+        out.append({"id": "D15/foreach/%d" % t, "world": world, "ops": ops, "tags": []})
+    return out
+
+
 def family_select(tier, seed):
     out = []
     vecs = [list(v) for L in (1, 2, 3, 4) for v in itertools.product(range(0, 4 if tier == "quick" else 5), repeat=L) if sum(v) > 0]
@@ -272,6 +295,34 @@ def family_starve(tier, seed, n=None):
             ops.append({"op": "call", "call": mcall()})
             ops.append({"op": "explore", "call": mcall(), "paths": ["o1.a", "o1.b"], "max_paths": 4000 if tier == "quick" else 40000})
         out.append({"id": "S14/%s/%s/%d" % (kind, "core" if core else "s%d" % seed, t), "world": world, "ops": ops, "tags": []})
+    # a NON-RANDOM member object whose own block its current values violate: the block takes no part, the member's fields are
+    # constants - the range inferred for the owner's fields must not be narrowed by that block
+    for t in range(2 if tier == "quick" else 6):
+        rnd = random.Random(1490 + t)
+        sub = {"base": "", "fields": [fld("x", 2, False)], "blocks": [blk("sc", [E(B("lt", F("x"), lit(1)))])]}
+        top = {"base": "", "fields": [fld("a", 2, False), fld("b", 2, False), {"name": "s", "kind": "obj", "cls": "S", "rand": False}],
+               "blocks": [blk("c1", [E(B(["le", "ne"][t % 2], F("a"), F("s.x"))), E(B("le", F("b"), F("a")))])]}
+        world = {"classes": {"S": sub, "A": top}, "population": [{"id": "o1", "cls": "A"}]}
+        ops = [{"op": "construct", "o": "o1"}, {"op": "set", "p": "o1.s.x", "v": bits(3 - t % 2, 2)}, {"op": "call", "call": mcall()},
+               {"op": "probe", "call": wcall(), "paths": ["o1.a", "o1.b"]},
+               {"op": "explore", "call": mcall(), "paths": ["o1.a", "o1.b"], "max_paths": 6000 if tier == "quick" else 60000}]
+        out.append({"id": "S14/nonrand_member/%d" % t, "world": world, "ops": ops, "tags": []})
+    # an enum whose enumerators are DECLARED in non-ascending order, narrowed by a membership or a relation
+    for t in range(3 if tier == "quick" else 9):
+        rnd = random.Random(1480 + t)
+        vals = [[5, 2, 11], [7, 1, 4, 0], [3, 9, 6]][t % 3]
+        fe = {"name": "e", "kind": "enum", "values": vals, "rand": True, "init": vals[0]}
+        fields = [fe, fld("b", 2, False)]
+        if t % 3 == 0:
+            body = [E({"k": "in", "e": F("e"), "items": [{"k": "v", "e": lit(v)} for v in sorted(vals)[:2]] + [{"k": "v", "e": lit(sorted(vals)[-1])}], "neg": False})]
+        elif t % 3 == 1:
+            body = [E(B("ge", F("e"), lit(sorted(vals)[1])))]
+        else:
+            body = [E(B("le", F("e"), lit(sorted(vals)[1]))), E(B("ne", F("b"), lit(0)))]
+        world = one(fields, [blk("c1", body)])
+        ops = [{"op": "construct", "o": "o1"}, {"op": "call", "call": mcall()}, {"op": "probe", "call": wcall(), "paths": ["o1.e", "o1.b"]},
+               {"op": "explore", "call": mcall(), "paths": ["o1.e", "o1.b"], "max_paths": 6000 if tier == "quick" else 60000}]
+        out.append({"id": "S14/enum_unsorted/%d" % t, "world": world, "ops": ops, "tags": []})
     # a dist nested under a condition confines its field only where the condition holds: elsewhere every value stays reachable
     for t in range(3 if tier == "quick" else 9):
         rnd = random.Random(1470 + t)
